@@ -8,7 +8,8 @@
     ([all_fixed]: the tree the check runs against; [pinned]: the tree as found).
     Spec (Val/CoerceSpec.v): [conforms], [ref_coerce] (RefCoerce), [ref_request]. *)
 From Coq Require Import List NArith ZArith Bool.
-From ApiFu Require Import Base.Sexp Val.Values Val.CoerceModel Val.CoerceSpec Val.CoerceProofs Val.CoerceReasons Val.CoerceRefine Val.CoerceRoutes Val.CoerceTotal Val.CoerceComplete.
+From ApiFu Require Import Base.Sexp Val.Values Val.CoerceModel Val.CoerceSpec Val.CoerceProofs Val.FloatExact Val.CoerceReasons Val.CoerceRefine Val.CoerceRoutes Val.CoerceSameValue Val.CoerceTotal Val.CoerceComplete Val.BridgeC04 Val.BridgeC04Proofs.
+From ApiFu Require Vld.Ast Vld.ValidatorModel.
 Import ListNotations.
 
 (** Hypotheses, all true of the real system and checked on every case of the correspondence:
@@ -147,16 +148,27 @@ Theorem C05_request_exact : forall E dt, env_ok E = true -> env_closed E = true 
   end.
 Proof. exact request_exact. Qed.
 
-(** ** route_independent.  [same_value l j]: the literal and the variable value spell the same
-    client value; [strip_nn t1 = strip_nn t2]: the types differ at most in non-null wrappers (all
-    the validator allows between a variable and its location, [compatible_strip]).  Literal
-    versus variable value, any input type (input objects, defaults and hooks included): *)
+(** ** route_independent.  [same_client_value l j]: the literal and the variable value spell the same
+    client value (an integer literal and the JSON number that is exactly that integer, a float
+    literal and the binary64 its text rounds to, an enum name and the string, ...);
+    [jnum_wf j]: every JSON number is a well-formed binary64 in canonical form (a representation
+    invariant of the exchange format, checked on every case);
+    [strip_nn t1 = strip_nn t2]: the types differ at most in non-null wrappers (all the validator
+    allows between a variable and its location, [compatible_strip]).  Literal versus variable
+    value, any input type (input objects, defaults and hooks included): *)
 Theorem C05_route_independent : forall E dt, env_ok E = true -> forall vv l j t1 t2 a1 a2 g1 g2,
-  same_value l j -> jval_ok j = true -> strip_nn t1 = strip_nn t2 ->
+  same_client_value l j -> jnum_wf j = true -> jval_ok j = true -> strip_nn t1 = strip_nn t2 ->
   coerce_literal all_fixed E dt vv l t1 a1 = Ok g1 ->
   coerce_var_value all_fixed E dt j t2 a2 = Ok g2 ->
   g1 = g2.
-Proof. exact route_independent. Qed.
+Proof. exact route_independent_wf. Qed.
+
+(** the arithmetic behind it (round 1 carried this as a premise): ParseFloat of an integer
+    literal's text is exactly the binary64 that holds that integer, when there is one.  An integer
+    no binary64 holds (2^53+1) has no JSON spelling at all: see [Examples/C05.v, beyond_2_53]. *)
+Theorem C05_integer_literal_is_exact_float : forall d z,
+  f64_wf d = true -> f64_to_Z d = Some z -> f64_of_Q z 1 = Some d.
+Proof. exact f64_of_Q_exact. Qed.
 
 Theorem C05_validator_types_differ_in_non_null_only : forall lt vt,
   types_compatible lt vt = true -> strip_nn lt = strip_nn vt.
@@ -167,12 +179,12 @@ Proof. exact compatible_strip. Qed.
 Theorem C05_route_nested : forall E dt, env_ok E = true -> forall defs vv v r j def c L t a ld g1 g2,
   find_def v defs = Some def -> aget v vv = Some c ->
   coerce_var_value all_fixed E dt j (vd_type def) true = Ok c ->
-  same_value r j -> jval_ok j = true -> lit_nodup L = true ->
+  same_client_value r j -> jnum_wf j = true -> jval_ok j = true -> lit_nodup L = true ->
   usage_ok all_fixed E defs L (Some t) ld = true ->
   coerce_literal all_fixed E dt vv L t a = Ok g2 ->
   coerce_literal all_fixed E dt vv (subst_var v r L) t a = Ok g1 ->
   g1 = g2.
-Proof. exact route_nested. Qed.
+Proof. exact route_nested_wf. Qed.
 
 (** omitted in favour of the variable's default *)
 Theorem C05_route_variable_default : forall E dt, env_ok E = true -> forall vv l tv t a c g1,
@@ -209,9 +221,19 @@ Proof. exact ref_nn_insensitive. Qed.
     [null_variable vv args]: a variable used by the arguments whose run-time value is null;
     [absent_item_variable vv args]: a variable without run-time value standing as an item of a list
       literal ([item_vars]);
-    [refusing_hook E]: an InputCoercion hook of the schema that returns an error.
-    [runtime_reason] is their disjunction.  In particular no literal, no default value and no
+    [hook_reached_args E argdefs args] / [hook_reached_defaults E defs raw]: an object literal of
+      the request (in an argument; in the default value of a variable without raw value) stands where
+      an input object type whose InputCoercion hook refuses is expected ([hook_hit], a walk over the
+      literal and its expected type).
+    [runtime_reason_precise] is their disjunction; [runtime_reason] is the coarser round-2 version
+    with [refusing_hook E] (some input object type of the schema has such a hook) in their place.  In particular no literal, no default value and no
     type mismatch is left to fail at run time. *)
+Theorem C05_static_dynamic_agree_precise : forall E dt site argdefs defs args raw,
+  schema_ok E argdefs -> request_ok defs raw ->
+  run_request all_fixed E dt site argdefs defs args raw = ORuntimeError ->
+  runtime_reason_precise E dt argdefs defs args raw = true.
+Proof. exact static_dynamic_agree_precise. Qed.
+
 Theorem C05_static_dynamic_agree : forall E dt site argdefs defs args raw,
   schema_ok E argdefs -> request_ok defs raw ->
   run_request all_fixed E dt site argdefs defs args raw = ORuntimeError ->
@@ -226,16 +248,20 @@ Theorem C05_argument_values_complete : forall E dt, env_ok E = true -> forall si
   static_ok all_fixed E dt site argdefs defs args = true ->
   coerce_variable_values all_fixed E dt defs raw = Ok vv ->
   coerce_argument_values all_fixed E dt argdefs args vv = Err ->
-  null_variable vv args || absent_item_variable vv args || refusing_hook E = true.
-Proof. exact argument_values_complete. Qed.
+  null_variable vv args || absent_item_variable vv args || hook_reached_args E argdefs args = true.
+Proof. exact argument_values_complete_precise. Qed.
 
 (** ... and CoerceVariableValues itself: a validated default value never fails to coerce *)
 Theorem C05_variable_values_complete : forall E dt, env_ok E = true -> forall site argdefs defs args raw,
   (forall def dflt, In def defs -> vd_default def = Some dflt -> lit_vars dflt = []) ->
   static_ok all_fixed E dt site argdefs defs args = true ->
   coerce_variable_values all_fixed E dt defs raw = Err ->
-  bad_variable_value all_fixed E dt defs raw || refusing_hook E = true.
-Proof. exact variable_values_complete. Qed.
+  bad_variable_value all_fixed E dt defs raw || hook_reached_defaults E defs raw = true.
+Proof. exact variable_values_complete_precise. Qed.
+
+(** the precise hook reason implies the coarse one *)
+Theorem C05_hook_hit_is_a_refusing_hook : forall E l t, hook_hit E l t = true -> refusing_hook E = true.
+Proof. exact hook_hit_coarse. Qed.
 
 (** a converse: the second reason is always fatal (a variable without a run-time value as an item
     of a list literal never coerces, whatever the types; graphql-js would make the item null) *)
@@ -251,10 +277,45 @@ Theorem C05_served_unless_runtime_reason : forall E dt site argdefs defs args ra
   schema_ok E argdefs -> request_ok defs raw -> env_closed E = true ->
   (forall ad, In ad argdefs -> sty_closed E (in_type (snd ad)) = true) ->
   static_ok all_fixed E dt site argdefs defs args = true ->
-  runtime_reason E dt defs args raw = false ->
+  runtime_reason_precise E dt argdefs defs args raw = false ->
   exists m, run_request all_fixed E dt site argdefs defs args raw = OCalled m /\
             ref_request E dt argdefs defs args raw = Some m.
 Proof. exact served_unless_runtime_reason. Qed.
+
+(** ** bridge to C04 (the validator model of coq/Vld): "validated" in C05's terms is C04's verdict.
+    [tr_lit], [tr_sty], [tr_env] translate C05's literals (numbers as decimal text), types and type
+    environments into C04's encoding; [c04_accepts E l t a] runs C04's transcription of
+    validateCoercion ([ValidatorModel.coercion repaired id_order]) on the translation.
+
+    FULL STATEMENT:  forall E dt l t a, bridgeable E = true ->
+                       c04_accepts E l t a = validate_coercion E dt l t a
+    ([bridgeable]: no DateTime / LongInt, whose value-dependent coercers C04's kind-level custom
+    scalars cannot express), from which C05's [static_ok] conjuncts on argument values and default
+    values follow from C04's rule_values verdict ([C04_rule_values_iff], [C04_coercion_agrees]).
+
+    PROVED (partial): the statement for every literal without object values, every type and every
+    environment, given [leaves_agree] (the two models agree on scalar leaves); [leaves_agree] itself
+    for environments whose scalars do not read numbers.
+    NOT PROVED, the exact gap: (a) object literals - C04's [fields_loop] with its accumulators
+    against C05's three conjuncts; (b) [leaves_agree] for Int / Float / ID, i.e. that C04's
+    [Literals.int_lit] / [float_lit_ok] read [dec_of_Z] back and that its ParseFloat range test
+    is C05's [f64_of_decimal <> None]; (c) the document level (C04's TypeInfo expected types for a
+    C05 request, the arguments and variables rule groups against the other conjuncts of
+    [static_ok]).  (a), (b) and the verdict on every argument literal and default value are
+    evaluated on every case by the check ([bridge_agrees]; 0 disagreements, class
+    c04-bridge-evaluated); (c) is tied only through the real validator, which both models are
+    compared with. *)
+Theorem C05_C04_coercion_bridge_partial : forall E dt, leaves_agree E dt ->
+  forall l, obj_free l = true -> forall t a,
+  match ValidatorModel.coercion ValidatorModel.repaired ValidatorModel.id_order (tr_env E) (tr_lit l) (tr_sty t) a with
+  | ValidatorModel.VR [] => true
+  | _ => false
+  end = validate_coercion E dt l t a.
+Proof. exact bridge_obj_free. Qed.
+
+Theorem C05_C04_coercion_bridge_non_numeric_partial : forall E dt l, non_numeric E = true -> obj_free l = true ->
+  forall t a, c04_accepts E l t a = validate_coercion E dt l t a.
+Proof. exact bridge_obj_free_non_numeric. Qed.
 
 (** the repaired defects: the same statements are false of the code as found *)
 Theorem C05_args_conform_refuted_before_fix :
@@ -301,12 +362,17 @@ Print Assumptions C05_reject_no_call.
 Print Assumptions C05_reference_is_served.
 Print Assumptions C05_request_no_panic.
 Print Assumptions C05_request_exact.
+Print Assumptions C05_static_dynamic_agree_precise.
+Print Assumptions C05_hook_hit_is_a_refusing_hook.
 Print Assumptions C05_static_dynamic_agree.
 Print Assumptions C05_argument_values_complete.
 Print Assumptions C05_variable_values_complete.
 Print Assumptions C05_absent_item_variable_is_error.
 Print Assumptions C05_served_unless_runtime_reason.
+Print Assumptions C05_C04_coercion_bridge_partial.
+Print Assumptions C05_C04_coercion_bridge_non_numeric_partial.
 Print Assumptions C05_route_independent.
+Print Assumptions C05_integer_literal_is_exact_float.
 Print Assumptions C05_validator_types_differ_in_non_null_only.
 Print Assumptions C05_route_nested.
 Print Assumptions C05_route_variable_default.
